@@ -20,6 +20,10 @@ type bumpCmd struct {
 	peer  peer.ID
 	tag   *decayingTag
 	delta int
+
+	// remove marks a removal that travels on the bump queue, so that a bump and a
+	// removal issued one after the other are processed in that order.
+	remove bool
 }
 
 // removeCmd represents a tag removal command.
@@ -233,6 +237,14 @@ func (d *decayer) process() {
 
 			p := s.tagInfoFor(peer, d.clock.Now())
 			v, ok := p.decaying[tag]
+			if bmp.remove {
+				if ok {
+					p.value -= v.Value
+					delete(p.decaying, tag)
+				}
+				s.Unlock()
+				continue
+			}
 			if !ok {
 				v = &connmgr.DecayingValue{
 					Tag:       tag,
@@ -338,15 +350,18 @@ func (t *decayingTag) Remove(p peer.ID) error {
 		return fmt.Errorf("decaying tag %s had been closed; no further removals are accepted", t.name)
 	}
 
-	rm := removeCmd{peer: p, tag: t}
+	// Removals share the queue of the bumps: with a queue of their own, the loop's select
+	// could process a removal before an earlier bump of the same caller, and the bump
+	// would then re-create the value for good.
+	rm := bumpCmd{peer: p, tag: t, remove: true}
 
 	select {
-	case t.trkr.removeTagCh <- rm:
+	case t.trkr.bumpTagCh <- rm:
 		return nil
 	default:
 		return fmt.Errorf(
 			"unable to remove decaying tag for peer %s, tag %s; queue full (len=%d)",
-			p, t.name, len(t.trkr.removeTagCh))
+			p, t.name, len(t.trkr.bumpTagCh))
 	}
 }
 
